@@ -1,6 +1,570 @@
-/- C04 - property theorems (stub: not built yet) -/
-import NotationModel.Model.C04
+/-
+C04 - Identity pinning matches only the signing certificate's own subject.
+Property theorems; the model is in `Model/C04.lean`, the loop lemmas in `Lemmas/C04.lean`.
+
+Reading guide: `verifyIdentities ids chain` is the model of
+`verifyX509TrustedIdentities(_, ids, chain) == nil`; `usable id` says that `id` is an
+`x509.subject:` identity with a non-empty, interpretable value; `attrsOf d.rdns` are the
+attributes (after the S->ST alias) of a parsed name; `validDN` is "notation can interpret
+this name" (spelled out by `validDN_iff`).
+-/
+import NotationModel.Lemmas.C04
+import NotationModel.Generated.C04
+set_option linter.unusedSimpArgs false
+set_option linter.unusedVariables false
 
 namespace NotationModel.C04
+
+/-! ### the facts read from the Go source are the ones the property is about -/
+
+/-- the constants of the identity check as read from the Go source on this run are the ones the
+model and the property use: the leaf is `certs[0]`, the wildcard is `*`, identities are
+`x509.subject:<DN>` cut at the first `:`, `S` is an alias of `ST`, an RDN has at most one attribute,
+`C`, `ST`, `O` are mandatory, `=#` is refused. A change of any of them in the Go source changes
+`Generated/C04.lean` and makes this theorem fail. -/
+theorem facts_wf :
+    Facts.c04LeafIndex = leafIndex ∧ Facts.c04Wildcard = wildcard ∧ Facts.c04Separator = separator ∧
+    Facts.c04X509Subject = x509Subject ∧ Facts.c04AliasFrom = aliasFrom ∧ Facts.c04AliasTo = aliasTo ∧
+    Facts.c04MaxAttrsPerRDN = maxAttrs ∧ Facts.c04Mandatory = mandatory ∧
+    Facts.c04Unsupported = unsupported := by decide
+
+/-- the wildcard is not an `a:b` identity -/
+theorem cut_wildcard : cut wildcard = none := by decide
+
+theorem leafIndex_zero : leafIndex = 0 := rfl
+theorem alias_ne : aliasTo ≠ aliasFrom := by decide
+
+/-! ### what "interpretable" means -/
+
+/-- a name is interpretable iff its text has no `=#`, go-ldap parses it, no RDN is multi-valued,
+no attribute type occurs twice (after the alias) and every mandatory attribute is present with
+a non-empty value -/
+theorem validDN_iff (text : Text) (rdns : Option (List (List Attr))) :
+    validDN text rdns = true ↔
+      hasInfix unsupported text = false ∧
+      ∃ rs, rdns = some rs ∧ (∀ r ∈ rs, r.length ≤ maxAttrs) ∧ ((flat rs).map Prod.fst).Nodup ∧
+        ∀ f ∈ mandatory, ∃ v, v ≠ [] ∧ (f, v) ∈ flat rs := by
+  unfold validDN
+  cases rdns with
+  | none => simp
+  | some rs =>
+    simp only [Bool.and_eq_true, Bool.not_eq_true', List.all_eq_true, decide_eq_true_eq,
+      nodupKeys_iff, hasMandatory, List.any_eq_true, beq_iff_eq, Option.some.injEq, keys]
+    constructor
+    · rintro ⟨h0, ⟨h1, h2⟩, h3⟩
+      refine ⟨h0, rs, rfl, h1, h2, ?_⟩
+      intro f hf
+      obtain ⟨a, ha, e1, e2⟩ := h3 f hf
+      refine ⟨a.2, ?_, ?_⟩
+      · intro e; rw [e] at e2; simp at e2
+      · rw [← e1]; exact ha
+    · rintro ⟨h0, rs', e, h1, h2, h3⟩
+      subst e
+      refine ⟨h0, ⟨h1, h2⟩, ?_⟩
+      intro f hf
+      obtain ⟨v, hv, hmem⟩ := h3 f hf
+      refine ⟨(f, v), hmem, rfl, ?_⟩
+      cases v with
+      | nil => exact absurd rfl hv
+      | cons c r => rfl
+
+/-- `usable` spelled out -/
+theorem usable_iff (id : Identity) :
+    usable id = true ↔ ∃ val, cut id.raw = some (x509Subject, val) ∧ val ≠ [] ∧ validDN val id.rdns = true := by
+  unfold usable x509Value
+  cases hc : cut id.raw with
+  | none => simp
+  | some pv =>
+    obtain ⟨pfx, val⟩ := pv
+    by_cases hp : pfx = x509Subject
+    · subst hp
+      simp only [if_true, Bool.and_eq_true, Bool.not_eq_true', Option.some.injEq, Prod.mk.injEq,
+        true_and, exists_eq_left']
+      constructor
+      · rintro ⟨h1, h2⟩
+        exact ⟨by intro e; rw [e] at h1; simp at h1, h2⟩
+      · rintro ⟨h1, h2⟩
+        refine ⟨?_, h2⟩
+        cases val with
+        | nil => exact absurd rfl h1
+        | cons c r => rfl
+    · simp only [hp, if_false, Option.some.injEq, Prod.mk.injEq]
+      constructor
+      · intro h; cases h
+      · rintro ⟨v, ⟨e, _⟩, _⟩; exact e.elim
+
+/-- `malformed` spelled out: no separator, or an `x509.subject:` identity whose value is empty or
+cannot be interpreted -/
+theorem malformed_iff (id : Identity) :
+    malformed id = true ↔
+      cut id.raw = none ∨
+      ∃ val, cut id.raw = some (x509Subject, val) ∧ (val = [] ∨ validDN val id.rdns = false) := by
+  unfold malformed
+  cases hc : cut id.raw with
+  | none => simp
+  | some pv =>
+    obtain ⟨pfx, val⟩ := pv
+    simp only [Bool.and_eq_true, beq_iff_eq, Bool.or_eq_true, Bool.not_eq_true', Option.some.injEq,
+      Prod.mk.injEq, false_or, reduceCtorEq]
+    constructor
+    · rintro ⟨e, h⟩
+      refine ⟨val, ⟨e, rfl⟩, ?_⟩
+      rcases h with h | h
+      · left
+        cases val with
+        | nil => rfl
+        | cons c r => simp at h
+      · right; exact h
+    · rintro ⟨v, ⟨e1, e2⟩, h⟩
+      subst e2
+      refine ⟨e1, ?_⟩
+      rcases h with h | h
+      · left; rw [h]; rfl
+      · right; exact h
+
+/-! ### the model computes the specification -/
+
+theorem run_eq_spec (i : Input) : (run i).pass = spec i := by
+  simp only [run, verifyIdentities_eq leafIndex_zero, spec_eq_specOf]
+
+theorem mem_all_contains {l attrs : List Attr} :
+    l.all (fun a => attrs.contains a) = true ↔ ∀ a ∈ l, a ∈ attrs := by
+  simp [List.all_eq_true, List.contains_iff_mem]
+
+/-- no identity is the wildcard -/
+def NoWildcard (ids : List Identity) : Prop := ∀ id ∈ ids, id.raw ≠ wildcard
+
+theorem anyWild_false {ids : List Identity} (h : NoWildcard ids) : ids.any isWild = false := by
+  rw [List.any_eq_false]
+  intro id hid
+  simpa [isWild] using h id hid
+
+/-! ### readable theorems (DESIGN.md section 5, C04) -/
+
+/-- **soundness**: if the check passes and the list has no wildcard, then the chain has a leaf
+whose subject is interpretable, and some *listed* `x509.subject` identity is interpretable and
+all of its attributes occur with equal value among the attributes of the **leaf** subject. -/
+theorem identity_pass_sound (ids : List Identity) (chain : List DN) (hnw : NoWildcard ids)
+    (h : verifyIdentities ids chain = true) :
+    ∃ leaf rest, chain = leaf :: rest ∧ validDN leaf.text leaf.rdns = true ∧
+      ∃ id ∈ ids, usable id = true ∧ ∀ a ∈ attrsOf id.rdns, a ∈ attrsOf leaf.rdns := by
+  rw [verifyIdentities_eq leafIndex_zero] at h
+  simp only [specOf, spec, anyWild, anyMalformed, anyX509, leafValid, anyWithinLeaf, leafAttrs,
+    leafOf, anyWild_false hnw, Bool.false_or, Bool.and_eq_true] at h
+  obtain ⟨⟨⟨_, _⟩, hv⟩, hw⟩ := h
+  cases chain with
+  | nil => simp at hv
+  | cons leaf rest =>
+    simp only [List.head?_cons] at hv hw
+    refine ⟨leaf, rest, rfl, hv, ?_⟩
+    simp only [hv, if_true, List.any_eq_true, within, Bool.and_eq_true] at hw
+    obtain ⟨id, hid, hu, hall⟩ := hw
+    exact ⟨id, hid, hu, mem_all_contains.1 hall⟩
+
+/-- **completeness** (converse): with no malformed identity in the list, an interpretable leaf
+subject and a listed interpretable identity whose attributes all occur in it, the check passes. -/
+theorem identity_pass_complete (ids : List Identity) (leaf : DN) (rest : List DN)
+    (hm : ∀ id ∈ ids, malformed id = false) (hv : validDN leaf.text leaf.rdns = true)
+    (h : ∃ id ∈ ids, usable id = true ∧ ∀ a ∈ attrsOf id.rdns, a ∈ attrsOf leaf.rdns) :
+    verifyIdentities ids (leaf :: rest) = true := by
+  rw [verifyIdentities_eq leafIndex_zero]
+  obtain ⟨id, hid, hu, hall⟩ := h
+  have hmal : ids.any malformed = false := by
+    rw [List.any_eq_false]; intro x hx; simp [hm x hx]
+  have hx : ids.any isX509 = true := by
+    rw [List.any_eq_true]
+    exact ⟨id, hid, by rw [← usable_eq_isX509_of_not_malformed (hm id hid)]; exact hu⟩
+  have hw : ids.any (fun id => within id (attrsOf leaf.rdns)) = true := by
+    rw [List.any_eq_true]
+    exact ⟨id, hid, by simp only [within, hu, Bool.true_and]; exact mem_all_contains.2 hall⟩
+  simp [specOf, spec, anyWild, anyMalformed, anyX509, leafValid, anyWithinLeaf, leafAttrs, leafOf,
+    hmal, hx, hv, hw]
+
+/-- **leaf only**: the result is a function of the identity list and the *head* of the chain -
+intermediate and root subjects cannot influence it. -/
+theorem leaf_only (ids : List Identity) (chain chain' : List DN) (h : chain.head? = chain'.head?) :
+    verifyIdentities ids chain = verifyIdentities ids chain' := by
+  simp only [verifyIdentities_eq leafIndex_zero, specOf, spec, anyWild, anyMalformed, anyX509,
+    leafValid, anyWithinLeaf, leafAttrs, leafOf, h]
+
+theorem leaf_only_cons (ids : List Identity) (leaf : DN) (cas cas' : List DN) :
+    verifyIdentities ids (leaf :: cas) = verifyIdentities ids (leaf :: cas') :=
+  leaf_only ids _ _ rfl
+
+/-- in particular: an identity that fits a CA subject but not the leaf subject does not pass -/
+theorem ca_subject_is_not_enough (ids : List Identity) (leaf : DN) (cas : List DN)
+    (hnw : NoWildcard ids)
+    (hleaf : ∀ id ∈ ids, usable id = true → ∃ a ∈ attrsOf id.rdns, a ∉ attrsOf leaf.rdns) :
+    verifyIdentities ids (leaf :: cas) = false := by
+  cases hres : verifyIdentities ids (leaf :: cas) with
+  | false => rfl
+  | true =>
+    obtain ⟨l, r, e, _, id, hid, hu, hall⟩ := identity_pass_sound ids _ hnw hres
+    simp only [List.cons.injEq] at e
+    obtain ⟨a, ha, hna⟩ := hleaf id hid hu
+    rw [← e.1] at hall
+    exact absurd (hall a ha) hna
+
+/-- **wildcard**: a list that contains `*` accepts every chain -/
+theorem wildcard_accepts (ids : List Identity) (chain : List DN) (h : ∃ id ∈ ids, id.raw = wildcard) :
+    verifyIdentities ids chain = true := by
+  obtain ⟨id, hid, e⟩ := h
+  have : ids.any (fun id => id.raw == wildcard) = true := by
+    rw [List.any_eq_true]; exact ⟨id, hid, by simp [e]⟩
+  simp [verifyIdentities, this]
+
+/-- **fail closed** (no wildcard in the list): a malformed identity (no separator, empty or
+uninterpretable `x509.subject` value), a list without any `x509.subject` identity, an empty chain
+or an uninterpretable leaf subject each make the check fail. -/
+theorem fail_closed (ids : List Identity) (chain : List DN) (hnw : NoWildcard ids)
+    (h : (∃ id ∈ ids, malformed id = true) ∨ (∀ id ∈ ids, isX509 id = false) ∨
+         chain = [] ∨ (∃ leaf rest, chain = leaf :: rest ∧ validDN leaf.text leaf.rdns = false)) :
+    verifyIdentities ids chain = false := by
+  rw [verifyIdentities_eq leafIndex_zero]
+  simp only [specOf, spec, anyWild, anyMalformed, anyX509, leafValid, anyWithinLeaf, leafAttrs,
+    leafOf, anyWild_false hnw, Bool.false_or]
+  rcases h with ⟨id, hid, hm⟩ | h | h | ⟨leaf, rest, e, hv⟩
+  · have : ids.any malformed = true := by rw [List.any_eq_true]; exact ⟨id, hid, hm⟩
+    simp [this]
+  · have : ids.any isX509 = false := by rw [List.any_eq_false]; intro x hx; simp [h x hx]
+    simp [this]
+  · subst h; simp
+  · subst e; simp [hv]
+
+/-- uninterpretable names, concretely: go-ldap refused the string, `=#` occurs in it, an RDN is
+multi-valued, a type occurs twice (`S` counting as `ST`), or a mandatory attribute is absent -/
+theorem uninterpretable (text : Text) (rdns : Option (List (List Attr)))
+    (h : rdns = none ∨ hasInfix unsupported text = true ∨
+      (∃ rs, rdns = some rs ∧ ((∃ r ∈ rs, maxAttrs < r.length) ∨ ¬ ((flat rs).map Prod.fst).Nodup ∨
+        ∃ f ∈ mandatory, ∀ v, (f, v) ∈ flat rs → v = []))) :
+    validDN text rdns = false := by
+  cases hv : validDN text rdns with
+  | false => rfl
+  | true =>
+    exfalso
+    obtain ⟨h0, rs, e, h1, h2, h3⟩ := (validDN_iff text rdns).1 hv
+    rcases h with h | h | ⟨rs', e', h⟩
+    · rw [h] at e; cases e
+    · rw [h] at h0; cases h0
+    · rw [e] at e'
+      simp only [Option.some.injEq] at e'
+      subst e'
+      rcases h with ⟨r, hr, hl⟩ | h | ⟨f, hf, hall⟩
+      · have := h1 r hr; omega
+      · exact h h2
+      · obtain ⟨v, hv1, hv2⟩ := h3 f hf
+        exact hv1 (hall v hv2)
+
+/-! ### invariance -/
+
+/-- two identities the check cannot tell apart -/
+structure IdEquiv (a b : Identity) : Prop where
+  wild : isWild a = isWild b
+  malformed : malformed a = malformed b
+  x509 : isX509 a = isX509 b
+  usable : usable a = usable b
+  attrs : ∀ x, x ∈ attrsOf a.rdns ↔ x ∈ attrsOf b.rdns
+
+/-- two subjects the check cannot tell apart -/
+structure DNEquiv (a b : DN) : Prop where
+  valid : validDN a.text a.rdns = validDN b.text b.rdns
+  attrs : ∀ x, x ∈ attrsOf a.rdns ↔ x ∈ attrsOf b.rdns
+
+theorem all_contains_congr {l l' attrs attrs' : List Attr} (h1 : ∀ x, x ∈ l ↔ x ∈ l')
+    (h2 : ∀ x, x ∈ attrs ↔ x ∈ attrs') :
+    l.all (fun a => attrs.contains a) = l'.all (fun a => attrs'.contains a) := by
+  rw [Bool.eq_iff_iff, mem_all_contains, mem_all_contains]
+  constructor
+  · intro h a ha; exact (h2 a).1 (h a ((h1 a).2 ha))
+  · intro h a ha; exact (h2 a).2 (h a ((h1 a).1 ha))
+
+theorem within_congr {a b : Identity} {attrs attrs' : List Attr} (h : IdEquiv a b)
+    (h2 : ∀ x, x ∈ attrs ↔ x ∈ attrs') : within a attrs = within b attrs' := by
+  simp only [within, h.usable, all_contains_congr h.attrs h2]
+
+theorem IdEquiv.refl (a : Identity) : IdEquiv a a := ⟨rfl, rfl, rfl, rfl, fun _ => Iff.rfl⟩
+
+/-- replacing one identity of the list by an equivalent one, and the leaf subject by an
+equivalent one, does not change the result -/
+theorem verify_congr (pre post : List Identity) (a b : Identity) (leaf leaf' : DN) (cas cas' : List DN)
+    (hid : IdEquiv a b) (hdn : DNEquiv leaf leaf') :
+    verifyIdentities (pre ++ a :: post) (leaf :: cas) = verifyIdentities (pre ++ b :: post) (leaf' :: cas') := by
+  simp only [verifyIdentities_eq leafIndex_zero, specOf, spec, anyWild, anyMalformed, anyX509,
+    leafValid, anyWithinLeaf, leafAttrs, leafOf, List.head?_cons, List.any_append, List.any_cons,
+    hid.wild, hid.malformed, hid.x509, hdn.valid]
+  have hattrs : ∀ x, x ∈ (if validDN leaf'.text leaf'.rdns = true then attrsOf leaf.rdns else []) ↔
+      x ∈ (if validDN leaf'.text leaf'.rdns = true then attrsOf leaf'.rdns else []) := by
+    intro x
+    by_cases hv : validDN leaf'.text leaf'.rdns = true
+    · simp only [hv, if_true]; exact hdn.attrs x
+    · simp [hv]
+  rw [within_congr hid hattrs]
+  have hc : ∀ l : List Identity,
+      l.any (fun id => within id (if validDN leaf'.text leaf'.rdns = true then attrsOf leaf.rdns else [])) =
+      l.any (fun id => within id (if validDN leaf'.text leaf'.rdns = true then attrsOf leaf'.rdns else [])) := by
+    intro l
+    apply List.any_congr rfl
+    intro id
+    exact within_congr (IdEquiv.refl id) hattrs
+  rw [hc pre, hc post]
+
+theorem validDN_perm {t t' : Text} {rs rs' : List (List Attr)} (hp : rs.Perm rs')
+    (ht : hasInfix unsupported t = hasInfix unsupported t') :
+    validDN t (some rs) = validDN t' (some rs') := by
+  have hf : (flat rs).Perm (flat rs') := (hp.flatten).map norm
+  unfold validDN
+  simp only [ht]
+  congr 2
+  · congr 1
+    · exact hp.all_eq
+    · rw [Bool.eq_iff_iff, nodupKeys_iff, nodupKeys_iff]
+      exact (hf.map Prod.fst).nodup_iff
+  · unfold hasMandatory
+    apply List.all_congr rfl
+    intro f
+    exact hf.any_eq
+
+theorem attrs_perm {rs rs' : List (List Attr)} (hp : rs.Perm rs') (x : Attr) :
+    x ∈ attrsOf (some rs) ↔ x ∈ attrsOf (some rs') :=
+  ((hp.flatten).map norm).mem_iff
+
+/-- the identity value and what go-ldap made of it changed, the rest of the string did not -/
+theorem idEquiv_of {a b : Identity} {pfx v v' : Text}
+    (ha : cut a.raw = some (pfx, v)) (hb : cut b.raw = some (pfx, v'))
+    (hempty : v.isEmpty = v'.isEmpty) (hvalid : validDN v a.rdns = validDN v' b.rdns)
+    (hattrs : ∀ x, x ∈ attrsOf a.rdns ↔ x ∈ attrsOf b.rdns) : IdEquiv a b := by
+  have hwa : isWild a = false := by
+    simp only [isWild, beq_eq_false_iff_ne]
+    intro e; rw [e, cut_wildcard] at ha; cases ha
+  have hwb : isWild b = false := by
+    simp only [isWild, beq_eq_false_iff_ne]
+    intro e; rw [e, cut_wildcard] at hb; cases hb
+  refine ⟨by rw [hwa, hwb], ?_, ?_, ?_, hattrs⟩
+  · simp only [malformed, ha, hb, hempty, hvalid]
+  · simp only [isX509, x509Value, ha, hb]
+    by_cases hp : pfx = x509Subject <;> simp [hp]
+  · simp only [usable, x509Value, ha, hb]
+    by_cases hp : pfx = x509Subject
+    · simp only [hp, if_true, hempty, hvalid]
+    · simp only [hp, if_false]
+
+/-- **order invariance, subject**: permuting the RDNs of the leaf subject (any `List.Perm`) does
+not change the result (the `=#` test looks at the text, so it has to agree on the two texts;
+it does whenever neither rendering contains `=#`). -/
+theorem order_invariant_subject (ids : List Identity) (t t' : Text) (rs rs' : List (List Attr))
+    (cas cas' : List DN) (hp : rs.Perm rs') (ht : hasInfix unsupported t = hasInfix unsupported t') :
+    verifyIdentities ids ({ text := t, rdns := some rs } :: cas) =
+    verifyIdentities ids ({ text := t', rdns := some rs' } :: cas') := by
+  have hdn : DNEquiv { text := t, rdns := some rs } { text := t', rdns := some rs' } :=
+    ⟨validDN_perm hp ht, attrs_perm hp⟩
+  cases ids with
+  | nil => simp [verifyIdentities, collect]
+  | cons a post => exact verify_congr [] post a a _ _ cas cas' (IdEquiv.refl a) hdn
+
+/-- **order invariance, identity**: permuting the RDNs of one listed identity does not change
+the result. `a` and `b` are `pfx:v` and `pfx:v'` where go-ldap parses `v` to `rs` and `v'` to a
+permutation `rs'` of `rs`. -/
+theorem order_invariant_identity (pre post : List Identity) (a b : Identity) (chain : List DN)
+    (pfx v v' : Text) (rs rs' : List (List Attr))
+    (ha : cut a.raw = some (pfx, v)) (hb : cut b.raw = some (pfx, v'))
+    (hra : a.rdns = some rs) (hrb : b.rdns = some rs') (hp : rs.Perm rs')
+    (hempty : v.isEmpty = v'.isEmpty) (ht : hasInfix unsupported v = hasInfix unsupported v') :
+    verifyIdentities (pre ++ a :: post) chain = verifyIdentities (pre ++ b :: post) chain := by
+  have hid : IdEquiv a b := by
+    apply idEquiv_of ha hb hempty
+    · rw [hra, hrb]; exact validDN_perm hp ht
+    · rw [hra, hrb]; exact attrs_perm hp
+  cases chain with
+  | nil =>
+    simp only [verifyIdentities_eq leafIndex_zero, specOf, spec, anyWild, anyMalformed, anyX509,
+      leafValid, anyWithinLeaf, leafAttrs, leafOf, List.head?_nil, List.any_append, List.any_cons,
+      hid.wild, hid.malformed, hid.x509]
+    simp
+  | cons leaf cas => exact verify_congr pre post a b leaf leaf cas cas hid ⟨rfl, fun _ => Iff.rfl⟩
+
+theorem flat_alias {rs rs' : List (List Attr)} (h : rs.map (List.map norm) = rs'.map (List.map norm)) :
+    flat rs = flat rs' := by
+  have h1 : ∀ l : List (List Attr), flat (l.map (List.map norm)) = flat l := by
+    intro l
+    induction l with
+    | nil => rfl
+    | cons r l ih =>
+      simp only [List.map_cons, flat_cons, ih, List.map_map]
+      congr 1
+      apply List.map_congr_left
+      intro a _
+      exact norm_norm alias_ne a
+  rw [← h1 rs, ← h1 rs', h]
+
+theorem validDN_alias {t t' : Text} {rs rs' : List (List Attr)}
+    (h : rs.map (List.map norm) = rs'.map (List.map norm))
+    (ht : hasInfix unsupported t = hasInfix unsupported t') :
+    validDN t (some rs) = validDN t' (some rs') := by
+  have hl : rs.map List.length = rs'.map List.length := by
+    have := congrArg (List.map List.length) h
+    simpa [List.map_map, Function.comp_def] using this
+  have hall : rs.all (fun r => decide (r.length ≤ maxAttrs)) = rs'.all (fun r => decide (r.length ≤ maxAttrs)) := by
+    have e : ∀ l : List (List Attr), l.all (fun r => decide (r.length ≤ maxAttrs)) =
+        (l.map List.length).all (fun n => decide (n ≤ maxAttrs)) := by
+      intro l; simp [List.all_map, Function.comp_def]
+    rw [e rs, e rs', hl]
+  unfold validDN
+  simp only [ht, flat_alias h, hall]
+
+/-- **alias invariance, subject**: writing `S` or `ST` (RDN by RDN, in either direction) does
+not change the result: two parses that agree after the alias are indistinguishable. -/
+theorem alias_invariant_subject (ids : List Identity) (t t' : Text) (rs rs' : List (List Attr))
+    (cas cas' : List DN) (h : rs.map (List.map norm) = rs'.map (List.map norm))
+    (ht : hasInfix unsupported t = hasInfix unsupported t') :
+    verifyIdentities ids ({ text := t, rdns := some rs } :: cas) =
+    verifyIdentities ids ({ text := t', rdns := some rs' } :: cas') := by
+  have hdn : DNEquiv { text := t, rdns := some rs } { text := t', rdns := some rs' } :=
+    ⟨validDN_alias h ht, by intro x; simp only [attrsOf, flat_alias h]⟩
+  cases ids with
+  | nil => simp [verifyIdentities, collect]
+  | cons a post => exact verify_congr [] post a a _ _ cas cas' (IdEquiv.refl a) hdn
+
+/-- **alias invariance, identity** -/
+theorem alias_invariant_identity (pre post : List Identity) (a b : Identity) (chain : List DN)
+    (pfx v v' : Text) (rs rs' : List (List Attr))
+    (ha : cut a.raw = some (pfx, v)) (hb : cut b.raw = some (pfx, v'))
+    (hra : a.rdns = some rs) (hrb : b.rdns = some rs')
+    (h : rs.map (List.map norm) = rs'.map (List.map norm))
+    (hempty : v.isEmpty = v'.isEmpty) (ht : hasInfix unsupported v = hasInfix unsupported v') :
+    verifyIdentities (pre ++ a :: post) chain = verifyIdentities (pre ++ b :: post) chain := by
+  have hid : IdEquiv a b := by
+    apply idEquiv_of ha hb hempty
+    · rw [hra, hrb]; exact validDN_alias h ht
+    · rw [hra, hrb]; intro x; simp only [attrsOf, flat_alias h]
+  cases chain with
+  | nil =>
+    simp only [verifyIdentities_eq leafIndex_zero, specOf, spec, anyWild, anyMalformed, anyX509,
+      leafValid, anyWithinLeaf, leafAttrs, leafOf, List.head?_nil, List.any_append, List.any_cons,
+      hid.wild, hid.malformed, hid.x509]
+    simp
+  | cons leaf cas => exact verify_congr pre post a b leaf leaf cas cas hid ⟨rfl, fun _ => Iff.rfl⟩
+
+/-- the alias itself: `S=v` and `ST=v` are the same attribute -/
+theorem alias_S_ST (v : Text) : norm (['S'], v) = norm (['S', 'T'], v) := by
+  simp [norm, aliasFrom, aliasTo]
+
+/-! ### the whole property -/
+
+theorem holds_append (a b : Clauses) : (a ++ b).holds = (a.holds && b.holds) := by
+  simp [Clauses.holds, List.all_append]
+
+theorem anyX509_of_anyWithinLeaf (i : Input) (h : anyWithinLeaf i = true) : anyX509 i = true := by
+  simp only [anyWithinLeaf, anyX509, List.any_eq_true] at h ⊢
+  obtain ⟨id, hid, hw⟩ := h
+  refine ⟨id, hid, ?_⟩
+  simp only [within, Bool.and_eq_true] at hw
+  obtain ⟨val, hc, _, _⟩ := (usable_iff id).1 hw.1
+  simp [isX509, x509Value, hc]
+
+/-- **C04, the property relative to the rendered subject**: every core clause is true of the
+model's behaviour, for all identity lists and chains, without any assumption. -/
+theorem model_holds_core (i : Input) : (coreClauses i (run i)).holds = true := by
+  have hrun := run_eq_spec i
+  have hax := anyX509_of_anyWithinLeaf i
+  unfold coreClauses
+  simp only [Clauses.holds_cons, Clauses.holds_nil, Bool.and_true, hrun]
+  unfold spec
+  generalize anyWild i = w
+  generalize anyMalformed i = m
+  generalize anyX509 i = x at hax
+  generalize leafValid i = lv
+  generalize anyWithinLeaf i = a at hax
+  cases a
+  · cases w <;> cases m <;> cases x <;> cases lv <;> rfl
+  · rw [hax rfl]
+    cases w <;> cases m <;> cases lv <;> rfl
+
+/-- **C04, the whole property**: every clause of `Holds` is true of the model's behaviour, for
+all identity lists and chains, under the (decidable, per-case checked) assumption `wf` on the
+trusted rendering: an interpretable leaf subject shows only attributes the certificate was
+minted with. `wf` is itself the last clause, so the driver evaluates it on every case. -/
+theorem model_holds (i : Input) (hwf : wf i = true) : Holds i (run i) = true := by
+  have hrun := run_eq_spec i
+  have hmint : anyWithinLeaf i = true → i.identities.any (fun id => within id (mintedAttrs i)) = true := by
+    intro h
+    simp only [anyWithinLeaf, List.any_eq_true] at h ⊢
+    obtain ⟨id, hid, hw⟩ := h
+    refine ⟨id, hid, ?_⟩
+    simp only [within, Bool.and_eq_true] at hw ⊢
+    refine ⟨hw.1, ?_⟩
+    have hw2 := mem_all_contains.1 hw.2
+    apply mem_all_contains.2
+    intro a ha
+    simp only [wf] at hwf
+    exact mem_all_contains.1 hwf a (hw2 a ha)
+  unfold Holds clauses
+  rw [holds_append, model_holds_core i, Bool.true_and]
+  unfold mintedClauses
+  simp only [Clauses.holds_cons, Clauses.holds_nil, Bool.and_true, hrun, hwf]
+  cases hs : spec i with
+  | false => rfl
+  | true =>
+    cases hw : anyWild i with
+    | true => rfl
+    | false =>
+      have : anyWithinLeaf i = true := by
+        simp only [spec, hw, Bool.false_or, Bool.and_eq_true] at hs
+        exact hs.2
+      rw [hmint this]
+      rfl
+
+/-! ### non-vacuity -/
+
+section examples
+
+def C : Text := ['C']
+def ST : Text := ['S', 'T']
+def S : Text := ['S']
+def O : Text := ['O']
+def CN : Text := ['C', 'N']
+def us : Text := ['U', 'S']
+def wa : Text := ['W', 'A']
+def org : Text := ['N']
+def leafCN : Text := ['l']
+def rootCN : Text := ['r']
+
+/-- leaf `CN=l,O=N,ST=WA,C=US`, root `CN=r,O=N,ST=WA,C=US` -/
+def exChain : List DN :=
+  [ { text := ['l'], rdns := some [[(CN, leafCN)], [(O, org)], [(ST, wa)], [(C, us)]] },
+    { text := ['r'], rdns := some [[(CN, rootCN)], [(O, org)], [(ST, wa)], [(C, us)]] } ]
+
+def pfx : Text := ['x', '5', '0', '9', '.', 's', 'u', 'b', 'j', 'e', 'c', 't', ':']
+
+/-- `x509.subject:<v>` with the given parse -/
+def exId (v : Text) (rs : List (List Attr)) : Identity := { raw := pfx ++ v, rdns := some rs }
+
+def minted : List Attr := [(CN, leafCN), (O, org), (ST, wa), (C, us)]
+
+-- a permuted subset of the leaf subject written with the S alias passes
+example : run { identities := [exId ['a'] [[(C, us)], [(S, wa)], [(O, org)]]], chain := exChain, minted := minted }
+    = { pass := true } := by decide
+-- the root's subject does not
+example : run { identities := [exId ['a'] [[(CN, rootCN)], [(O, org)], [(ST, wa)], [(C, us)]]], chain := exChain, minted := minted }
+    = { pass := false } := by decide
+-- a superset of the leaf subject does not
+example : run { identities := [exId ['a'] [[(CN, leafCN)], [(O, org)], [(ST, wa)], [(C, us)], [(['L'], [])]]], chain := exChain, minted := minted }
+    = { pass := false } := by decide
+-- the lone wildcard does
+example : run { identities := [{ raw := ['*'], rdns := none }], chain := exChain, minted := minted }
+    = { pass := true } := by decide
+-- a list without any x509.subject identity does not
+example : run { identities := [{ raw := ['a', ':', 'b'], rdns := none }], chain := exChain, minted := minted }
+    = { pass := false } := by decide
+-- `Holds` rejects a wrong observation: passing on the strength of the root's subject
+example : Holds { identities := [exId ['a'] [[(CN, rootCN)], [(O, org)], [(ST, wa)], [(C, us)]]], chain := exChain, minted := minted }
+    { pass := true } = false := by decide
+-- ... and failing although a listed identity is within the leaf subject
+example : Holds { identities := [exId ['a'] [[(C, us)], [(ST, wa)], [(O, org)]]], chain := exChain, minted := minted }
+    { pass := false } = false := by decide
+example : Holds { identities := [exId ['a'] [[(C, us)], [(ST, wa)], [(O, org)]]], chain := exChain, minted := minted }
+    { pass := true } = true := by decide
+example : wf { identities := [], chain := exChain, minted := minted } = true := by decide
+
+end examples
 
 end NotationModel.C04
